@@ -1103,7 +1103,26 @@ def i_imports(k):
 '''
 
 
-XSRC = XSRC_HEAD + SUPPORT + XSRC_BODY
+def _expand(src):
+    """`for g in (lambda: A, lambda: B, ...): try: r.append(g()) except Exception as e: r.append(type(e).__name__)`
+    is written out as one try statement per expression (no closures: the typed locals are used directly and the
+    generated C stays small)"""
+    pat = re.compile(r"^([ ]*)for (\w) in \((lambda: .*?)\):\n\1    try:\n\1        r\.append\(\2\(\)\)\n"
+                     r"\1    except Exception as (\w+):\n\1        r\.append\(type\(\4\)\.__name__\)\n", re.M | re.S)
+
+    def rep(m):
+        ind = m.group(1)
+        body = " ".join(x.strip() for x in m.group(3).split("\n"))
+        exprs = [e.strip().rstrip(",").strip() for e in body.split("lambda: ") if e.strip()]
+        out = []
+        for e in exprs:
+            out.append("%stry:\n%s    r.append(%s)\n%sexcept Exception as %s:\n%s    r.append(type(%s).__name__)\n"
+                       % (ind, ind, e, ind, m.group(4), ind, m.group(4)))
+        return "".join(out)
+    return pat.sub(rep, src)
+
+
+XSRC = XSRC_HEAD + SUPPORT + _expand(XSRC_BODY)
 
 
 def x_functions():
